@@ -7,18 +7,18 @@ invariant (and the selector invariant when a list opens).
 namespace Chewing.C01
 open Chewing Chewing.C04 Chewing.C05
 
-variable {D L : Type} {env : Env D L} {G : D → Prop}
+variable {D L : Type} {env : Env D L} {G : D → Prop} {w : Prop}
 
 /-- a state's `next` returned, the shared invariant holds again, and a state it switches to satisfies
     its invariant -/
-def StepOK (env : Env D L) (G : D → Prop) (r : StepRes D L) : Prop :=
-  OkAnd (fun x => ShInv env G x.1 ∧ ∀ s, x.2 = .toState s → StInv env x.1 s) r
+def StepOK (env : Env D L) (G : D → Prop) (w : Prop) (r : StepRes D L) : Prop :=
+  OkAnd (fun x => ShInv env G w x.1 ∧ ∀ s, x.2 = .toState s → StInv env w x.1 s) r
 
-theorem stepOK_spin {sh : Shared D L} (h : ShInv env G sh) (b : KB) : StepOK env G (.ok (sh, .spin b)) :=
+theorem stepOK_spin {sh : Shared D L} (h : ShInv env G w sh) (b : KB) : StepOK env G w (.ok (sh, .spin b)) :=
   ⟨_, rfl, h, fun s hs => by cases hs⟩
 
-theorem stepOK_to {sh : Shared D L} (h : ShInv env G sh) (st : St) (hs : StInv env sh st) :
-    StepOK env G (.ok (sh, .toState st)) :=
+theorem stepOK_to {sh : Shared D L} (h : ShInv env G w sh) (st : St) (hs : StInv env w sh st) :
+    StepOK env G w (.ok (sh, .toState st)) :=
   ⟨_, rfl, h, fun s hh => by cases hh; exact hs⟩
 
 /-- close a `spin` leaf from a proof of the invariant of the new shared state -/
@@ -26,28 +26,28 @@ macro "spin_of " h:term : tactic => `(tactic| (apply stepOK_spin; exact $h))
 /-- close a `toState` leaf whose target state has a trivial invariant -/
 macro "to_of " h:term : tactic => `(tactic| (apply stepOK_to <;> first | exact $h | trivial))
 
-theorem stepOK_ite {c : Prop} [Decidable c] {a b : StepRes D L} (h1 : StepOK env G a) (h2 : StepOK env G b) :
-    StepOK env G (if c then a else b) := by
+theorem stepOK_ite {c : Prop} [Decidable c] {a b : StepRes D L} (h1 : StepOK env G w a) (h2 : StepOK env G w b) :
+    StepOK env G w (if c then a else b) := by
   split <;> assumption
 
 /-- `CedPost` for several inserted characters -/
 def CedPostC (e e' : CompEditor) : Prop :=
   CedInv e' ∧ ∀ s ∈ e'.inner.symbols, s ∈ e.inner.symbols ∨ s.isSyl = false
 
-theorem ShInv.setComC {sh : Shared D L} (h : ShInv env G sh) {c : CompEditor} (hp : CedPostC sh.com c) :
-    ShInv env G { sh with com := c } := by
+theorem ShInv.setComC {sh : Shared D L} (h : ShInv env G w sh) {c : CompEditor} (hp : CedPostC sh.com c) :
+    ShInv env G w { sh with com := c } := by
   refine ⟨h.good, hp.1, ?_, h.coupled, h.perPage, h.symOK⟩
-  intro x hx
+  intro hw x hx
   rcases hp.2 _ hx with hm | hm
-  · exact h.word x hm
+  · exact h.word hw x hm
   · cases hm
 
 theorem CedPost.toC {e e' : CompEditor} {x : Option Sym} (h : CedPost e x e') (hx : ∀ s, x = some s → s.isSyl = false) :
     CedPostC e e' :=
   ⟨h.1, fun s hs => (h.2 s hs).imp id (fun hh => hx s hh)⟩
 
-theorem stepOK_withCom_absorb {sh : Shared D L} (h : ShInv env G sh) {r : Outcome CompEditor}
-    (hr : OkAnd (CedPostC sh.com) r) : StepOK env G (withCom sh r fun sh => .ok (sh, .spin .absorb)) := by
+theorem stepOK_withCom_absorb {sh : Shared D L} (h : ShInv env G w sh) {r : Outcome CompEditor}
+    (hr : OkAnd (CedPostC sh.com) r) : StepOK env G w (withCom sh r fun sh => .ok (sh, .spin .absorb)) := by
   obtain ⟨c, rfl, hp⟩ := hr
   spin_of (h.setComC hp)
 
@@ -67,21 +67,21 @@ theorem insertChars_ok (cs : List Nat) : ∀ {e : CompEditor}, CedInv e → OkAn
 
 /-! ## characters -/
 
-theorem commitOrInsert_ok {sh : Shared D L} (h : ShInv env G sh) (ch : Nat) : StepOK env G (commitOrInsert sh ch) := by
+theorem commitOrInsert_ok {sh : Shared D L} (h : ShInv env G w sh) (ch : Nat) : StepOK env G w (commitOrInsert sh ch) := by
   unfold commitOrInsert
   split
   · spin_of (h.congr rfl rfl rfl rfl rfl rfl)
   · exact stepOK_withCom_absorb h (insertChr_ok h.ced ch)
 
-theorem inputChar_ok {sh : Shared D L} (h : ShInv env G sh) (ev : KeyEvent) : StepOK env G (inputChar sh ev) := by
+theorem inputChar_ok {sh : Shared D L} (h : ShInv env G w sh) (ev : KeyEvent) : StepOK env G w (inputChar sh ev) := by
   unfold inputChar fullOrBell
   repeat' split
   all_goals first
     | exact commitOrInsert_ok h _
     | spin_of h
 
-theorem chineseFallback_ok {sh : Shared D L} (h : ShInv env G sh) (ev : KeyEvent) :
-    StepOK env G (chineseFallback sh ev) := by
+theorem chineseFallback_ok {sh : Shared D L} (h : ShInv env G w sh) (ev : KeyEvent) :
+    StepOK env G w (chineseFallback sh ev) := by
   unfold chineseFallback
   repeat' split
   all_goals first
@@ -91,7 +91,7 @@ theorem chineseFallback_ok {sh : Shared D L} (h : ShInv env G sh) (ev : KeyEvent
 
 /-! ## opening a candidate list -/
 
-theorem selInv_newSymbol (sh sh' : Shared D L) (hy : SymWF sh.symSel) : SelInv env sh' (newSymbol sh) :=
+theorem selInv_newSymbol (sh sh' : Shared D L) (hy : SymWF sh.symSel) : SelInv env w sh' (newSymbol sh) :=
   ⟨hy, fun h => by cases h⟩
 
 theorem forSelect_clamp {e : CompEditor} {sym : Sym} (h : e.symbolForSelect = some sym) :
@@ -116,23 +116,67 @@ theorem forSelect_clamp {e : CompEditor} {sym : Sym} (h : e.symbolForSelect = so
     rw [this]
     exact ⟨rfl, h1, h2⟩
 
-theorem newPhrase_ok {sh : Shared D L} (h : ShInv env G sh) {k : Nat} (hs : sh.com.symbolForSelect = some (.syl k)) :
-    StepOK env G (newPhrase env sh) := by
+/-- what `new_phrase` returns on a syllable: the saved + clamped cursor and a phrase selector satisfying its invariant -/
+theorem newPhrase_eq {sh : Shared D L} (h : ShInv env G w sh) {k : Nat} (hs : sh.com.symbolForSelect = some (.syl k)) :
+    ∃ p, newPhrase env sh = .ok ({ sh with com := sh.com.pushCursor.clampCursor },
+        .toState (.selecting { pageNo := 0, action := .replace, sel := .phrase p })) ∧
+      ShInv env G w { sh with com := sh.com.pushCursor.clampCursor } ∧
+      PhraseOK env w { sh with com := sh.com.pushCursor.clampCursor } p := by
   obtain ⟨c1, c2, c3⟩ := forSelect_clamp hs
   have hced : CedInv sh.com.pushCursor.clampCursor := ced_clampCursor (ced_pushCursor h.ced)
   unfold newPhrase
   dsimp only
   obtain ⟨p, hq, p1, p2, p3, p4, p5, p6, _, _⟩ := init_ok (env := env) (!sh.options.phraseChoiceRearward) sh.options.lookupStrategy
     sh.com.pushCursor.clampCursor.inner sh.com.pushCursor.clampCursor.cursor sh.dict
-    (by rw [c1]; exact c2) ⟨k, by rw [c1]; exact c3⟩ (fun c hc => (h.word c (by rw [c1] at hc; exact hc)).2)
+    (by rw [c1]; exact c2) ⟨k, by rw [c1]; exact c3⟩
   rw [hq]
-  refine stepOK_to (h.setComSame hced (by rw [c1])) _ ⟨?_, fun _ => .inl ⟨p, rfl⟩⟩
-  show PhraseOK env _ p
+  refine ⟨p, rfl, h.setComSame hced (by rw [c1]), ?_⟩
   refine ⟨p1, p3, by rw [p1]; exact p4, by rw [p1]; exact p5, ?_, p6⟩
-  intro c hc
+  intro hw c hc
   rw [p2]
   rw [p1, c1] at hc
-  exact (h.word c hc).2
+  exact (h.word hw c hc).2
+
+theorem newPhrase_ok {sh : Shared D L} (h : ShInv env G w sh) {k : Nat} (hs : sh.com.symbolForSelect = some (.syl k)) :
+    StepOK env G w (newPhrase env sh) := by
+  obtain ⟨p, hq, hi, hp⟩ := newPhrase_eq h hs
+  rw [hq]
+  exact stepOK_to hi _ ⟨hp, fun _ => .inl ⟨p, rfl⟩⟩
+
+/-- the candidate query of a phrase selector satisfying its invariant answers (the `unwrap()`s on the symbol
+    under a one-symbol range find a syllable) -/
+theorem phraseCandidates_returns {sh : Shared D L} {p : PhraseSel} (hp : PhraseOK env w sh p) :
+    ∃ cs, PhraseSel.candidates env p sh.dict sh.syl = .ok cs := by
+  unfold PhraseSel.candidates
+  rw [sliceSyms_ok (Nat.le_of_lt hp.lt) hp.le]
+  dsimp only
+  split
+  · obtain ⟨k, hk⟩ := hp.syl p.begin_ (Nat.le_refl _) hp.lt
+    have hlt : p.begin_ < p.com.symbols.length := Nat.lt_of_lt_of_le hp.lt hp.le
+    rw [symbol?_lt hlt, hk]
+    exact ⟨_, rfl⟩
+  · exact ⟨_, rfl⟩
+
+/-- `open_phrase`: the list `new_phrase` built, or — without candidates — the saved cursor restored and the
+    request ignored -/
+theorem openPhrase_ok {sh : Shared D L} (h : ShInv env G w sh) {k : Nat} (hs : sh.com.symbolForSelect = some (.syl k)) :
+    StepOK env G w (openPhrase env sh) := by
+  obtain ⟨p, hq, hi, hp⟩ := newPhrase_eq h hs
+  obtain ⟨cs, hc⟩ := phraseCandidates_returns hp
+  unfold openPhrase
+  rw [hq]
+  dsimp only
+  unfold Selecting.candidates
+  dsimp only
+  rw [hc]
+  cases cs with
+  | nil =>
+    apply stepOK_spin
+    have hcur := cursor_le_of_symbolForSelect hs
+    have : Shared.cancelSelecting { sh with com := sh.com.pushCursor.clampCursor } = sh := by
+      unfold Shared.cancelSelecting; simp only [pop_push_clamp _ hcur]
+    rw [this]; exact h
+  | cons a l => exact stepOK_to hi _ ⟨hp, fun _ => .inl ⟨p, rfl⟩⟩
 
 theorem specialMenu_chr (ch : Nat) : ∃ l, specialMenu (.chr ch) = .ok l := by
   unfold specialMenu specialFindCategory
@@ -143,8 +187,8 @@ theorem specialMenu_chr (ch : Nat) : ∃ l, specialMenu (.chr ch) = .ok l := by
   · next hh => cases hh
   · next hh => cases hh
 
-theorem newSpecialSymbol_ok {sh : Shared D L} (h : ShInv env G sh) {ch : Nat}
-    (hs : sh.com.symbolForSelect = some (.chr ch)) : StepOK env G (newSpecialSymbol sh (.chr ch)) := by
+theorem newSpecialSymbol_ok {sh : Shared D L} (h : ShInv env G w sh) {ch : Nat}
+    (hs : sh.com.symbolForSelect = some (.chr ch)) : StepOK env G w (newSpecialSymbol sh (.chr ch)) := by
   obtain ⟨c1, c2, c3⟩ := forSelect_clamp hs
   have hced : CedInv sh.com.pushCursor.clampCursor := ced_clampCursor (ced_pushCursor h.ced)
   have hsh := h.setComSame hced (by rw [c1])
@@ -159,22 +203,22 @@ theorem newSpecialSymbol_ok {sh : Shared D L} (h : ShInv env G sh) {ch : Nat}
   | nil => exact stepOK_to hsh _ ⟨h.symOK, fun _ => .inr hrepl⟩
   | cons a l => exact stepOK_to hsh _ ⟨rfl, fun _ => .inr hrepl⟩
 
-theorem startSelecting_ok {sh : Shared D L} (h : ShInv env G sh) : StepOK env G (startSelecting env sh) := by
+theorem startSelecting_ok {sh : Shared D L} (h : ShInv env G w sh) : StepOK env G w (startSelecting env sh) := by
   unfold startSelecting
   split
   · next sym hs =>
     cases sym with
-    | syl k => simp only [Sym.isSyl, if_true]; exact newPhrase_ok h hs
+    | syl k => simp only [Sym.isSyl, if_true]; exact openPhrase_ok h hs
     | chr ch => simp only [Sym.isSyl]; exact newSpecialSymbol_ok h hs
   · spin_of h
 
-theorem startSelectingOrInputSpace_ok {sh : Shared D L} (h : ShInv env G sh) :
-    StepOK env G (startSelectingOrInputSpace env sh) := by
+theorem startSelectingOrInputSpace_ok {sh : Shared D L} (h : ShInv env G w sh) :
+    StepOK env G w (startSelectingOrInputSpace env sh) := by
   unfold startSelectingOrInputSpace
   split
   · next sym hs =>
     cases sym with
-    | syl k => simp only [Sym.isSyl, if_true]; exact newPhrase_ok h hs
+    | syl k => simp only [Sym.isSyl, if_true]; exact openPhrase_ok h hs
     | chr ch => simp only [Sym.isSyl]; exact newSpecialSymbol_ok h hs
   · split
     · spin_of (h.congr rfl rfl rfl rfl rfl rfl)
@@ -182,9 +226,9 @@ theorem startSelectingOrInputSpace_ok {sh : Shared D L} (h : ShInv env G sh) :
 
 /-! ## `Entering` -/
 
-theorem enteringDefault_ok {sh : Shared D L} (h : ShInv env G sh) (ev : KeyEvent) :
-    StepOK env G (enteringDefault env sh ev) := by
-  have hsyl : ∀ l : L, ShInv env G { sh with syl := l } := fun l => h.congr rfl rfl rfl rfl rfl rfl
+theorem enteringDefault_ok {sh : Shared D L} (h : ShInv env G w sh) (ev : KeyEvent) :
+    StepOK env G w (enteringDefault env sh ev) := by
+  have hsyl : ∀ l : L, ShInv env G w { sh with syl := l } := fun l => h.congr rfl rfl rfl rfl rfl rfl
   unfold enteringDefault
   repeat' split
   all_goals first
@@ -198,19 +242,19 @@ theorem enteringDefault_ok {sh : Shared D L} (h : ShInv env G sh) (ev : KeyEvent
     | exact chineseFallback_ok (hsyl _) _
     | exact chineseFallback_ok h _
 
-theorem enteringBackspace_ok {sh : Shared D L} (h : ShInv env G sh) : StepOK env G (enteringBackspace sh) := by
+theorem enteringBackspace_ok {sh : Shared D L} (h : ShInv env G w sh) : StepOK env G w (enteringBackspace sh) := by
   unfold enteringBackspace
   split
   · spin_of h
   · exact stepOK_withCom_absorb h ((ced_removeBefore h.ced).mono fun _ hp => hp.toC (fun s hs => by cases hs))
 
 theorem learnTrans_ok {sh : Shared D L} {r : Outcome (Shared D L × Bool)}
-    (hr : OkAnd (fun x => ShInv env G x.1 ∧ Keeps env sh x.1) r) : StepOK env G (learnTrans r) := by
+    (hr : OkAnd (fun x => ShInv env G w x.1 ∧ Keeps env sh x.1) r) : StepOK env G w (learnTrans r) := by
   obtain ⟨⟨sh', b⟩, rfl, hi, _⟩ := hr
   exact stepOK_spin hi _
 
-theorem enteringCtrlDigit_ok (hE : EnvOK env G) {sh : Shared D L} (h : ShInv env G sh) (c : Nat) :
-    StepOK env G (enteringCtrlDigit env sh c) := by
+theorem enteringCtrlDigit_ok (hE : EnvOK env G) {sh : Shared D L} (h : ShInv env G w sh) (c : Nat) :
+    StepOK env G w (enteringCtrlDigit env sh c) := by
   unfold enteringCtrlDigit
   split
   · exact stepOK_to h _ (selInv_newSymbol sh sh h.symOK)
@@ -221,8 +265,8 @@ theorem enteringCtrlDigit_ok (hE : EnvOK env G) {sh : Shared D L} (h : ShInv env
       · exact learnTrans_ok (learnInRangeNotify_ok hE h _ _ (by omega))
       · spin_of (h.congr rfl rfl rfl rfl rfl rfl)
 
-theorem enteringTabInside_ok (hE : EnvOK env G) {sh : Shared D L} (h : ShInv env G sh) :
-    StepOK env G (enteringTabInside env sh) := by
+theorem enteringTabInside_ok (hE : EnvOK env G) {sh : Shared D L} (h : ShInv env G w sh) :
+    StepOK env G w (enteringTabInside env sh) := by
   obtain ⟨ivs, hq, _⟩ := conversion_ok hE h
   unfold enteringTabInside
   rw [hq]
@@ -233,7 +277,7 @@ theorem enteringTabInside_ok (hE : EnvOK env G) {sh : Shared D L} (h : ShInv env
   · exact stepOK_withCom_absorb h ((ced_insertGap h.ced .brk (by decide) (.inr rfl)).mono
       fun _ hp => hp.toC (fun s hs => by cases hs))
 
-theorem enteringDel_ok {sh : Shared D L} (h : ShInv env G sh) : StepOK env G (enteringDel sh) := by
+theorem enteringDel_ok {sh : Shared D L} (h : ShInv env G w sh) : StepOK env G w (enteringDel sh) := by
   unfold enteringDel
   split
   · spin_of h
@@ -244,36 +288,36 @@ theorem enteringDel_ok {sh : Shared D L} (h : ShInv env G sh) : StepOK env G (en
       omega
     exact stepOK_withCom_absorb h ((ced_removeAfter h.ced hlt).mono fun _ hp => hp.toC (fun s hs => by cases hs))
 
-theorem enteringShiftLeft_ok {sh : Shared D L} (h : ShInv env G sh) : StepOK env G (enteringShiftLeft sh) := by
+theorem enteringShiftLeft_ok {sh : Shared D L} (h : ShInv env G w sh) : StepOK env G w (enteringShiftLeft sh) := by
   unfold enteringShiftLeft
   split
   · spin_of h
   · to_of h
 
-theorem enteringShiftRight_ok {sh : Shared D L} (h : ShInv env G sh) : StepOK env G (enteringShiftRight sh) := by
+theorem enteringShiftRight_ok {sh : Shared D L} (h : ShInv env G w sh) : StepOK env G w (enteringShiftRight sh) := by
   unfold enteringShiftRight
   split
   · spin_of h
   · to_of h
 
-theorem enteringEnter_ok (hE : EnvOK env G) {sh : Shared D L} (h : ShInv env G sh) :
-    StepOK env G (enteringEnter env sh) := by
+theorem enteringEnter_ok (hE : EnvOK env G) {sh : Shared D L} (h : ShInv env G w sh) :
+    StepOK env G w (enteringEnter env sh) := by
   obtain ⟨sh', hq, hi, _⟩ := commit_ok hE h
   unfold enteringEnter
   rw [hq]
   exact stepOK_spin hi _
 
-theorem enteringEsc_ok {sh : Shared D L} (h : ShInv env G sh) : StepOK env G (enteringEsc sh) := by
+theorem enteringEsc_ok {sh : Shared D L} (h : ShInv env G w sh) : StepOK env G w (enteringEsc sh) := by
   unfold enteringEsc
   split
   · apply stepOK_spin
     refine ⟨h.good, ced_clear h.ced, ?_, h.coupled, h.perPage, h.symOK⟩
-    intro c hc; simp [CompEditor.clear, Composition.clear] at hc
+    intro _ c hc; simp [CompEditor.clear, Composition.clear] at hc
   · spin_of h
 
 /-- **`Entering::next`**: every arm returns and re-establishes the invariant -/
-theorem enteringNext_ok (hE : EnvOK env G) {sh : Shared D L} (h : ShInv env G sh) (ev : KeyEvent) :
-    StepOK env G (enteringNext env sh ev) := by
+theorem enteringNext_ok (hE : EnvOK env G) {sh : Shared D L} (h : ShInv env G w sh) (ev : KeyEvent) :
+    StepOK env G w (enteringNext env sh ev) := by
   unfold enteringNext
   repeat' (with_reducible apply stepOK_ite)
   all_goals first
@@ -299,24 +343,24 @@ theorem enteringNext_ok (hE : EnvOK env G) {sh : Shared D L} (h : ShInv env G sh
 /-! ## `EnteringSyllable` -/
 
 /-- a syllable that has a word under the editor's lookup strategy has one under the engine's strategy -/
-theorem word_both (hE : EnvOK env G) {sh : Shared D L} (h : ShInv env G sh) {k : Nat}
+theorem word_both (hE : EnvOK env G) {sh : Shared D L} (h : ShInv env G w sh) (hw0 : w) {k : Nat}
     (hw : env.hasPhrase sh.dict [k] sh.options.lookupStrategy = true) :
     env.hasPhrase sh.dict [k] (engStrategy sh.engine) = true ∧ env.hasPhrase sh.dict [k] sh.options.lookupStrategy = true := by
   refine ⟨?_, hw⟩
   cases hl : sh.options.lookupStrategy with
-  | fuzzyPartialPrefix => rw [h.coupled hl, ← hl]; exact hw
+  | fuzzyPartialPrefix => rw [h.coupled hw0 hl, ← hl]; exact hw
   | standard =>
     rw [hl] at hw
     cases he : engStrategy sh.engine with
     | standard => exact hw
     | fuzzyPartialPrefix => exact hE.std_fuzzy _ _ h.good hw
 
-theorem insertSyl_ok {sh : Shared D L} (h : ShInv env G sh) {k : Nat}
-    (hw : env.hasPhrase sh.dict [k] (engStrategy sh.engine) = true ∧ env.hasPhrase sh.dict [k] sh.options.lookupStrategy = true) :
-    OkAnd (fun c => ShInv env G { sh with com := c } ∧ 0 < c.cursor ∧ c.inner.symbols[c.cursor - 1]? = some (Sym.syl k))
+theorem insertSyl_ok {sh : Shared D L} (h : ShInv env G w sh) {k : Nat}
+    (hw : w → env.hasPhrase sh.dict [k] (engStrategy sh.engine) = true ∧ env.hasPhrase sh.dict [k] sh.options.lookupStrategy = true) :
+    OkAnd (fun c => ShInv env G w { sh with com := c } ∧ 0 < c.cursor ∧ c.inner.symbols[c.cursor - 1]? = some (Sym.syl k))
       (sh.com.insert (.syl k)) := by
   obtain ⟨c, hq, hp⟩ := ced_insert h.ced (.syl k)
-  refine ⟨c, hq, h.setComIns hp (fun k' hk => by cases hk; exact hw), ?_⟩
+  refine ⟨c, hq, h.setComIns hp (fun hw' k' hk => by cases hk; exact hw hw'), ?_⟩
   have hf := insert_at_cursor sh.com (.syl k) c hq
   simp only [CompEditor.symbols] at hf
   obtain ⟨f1, f2, _, f4⟩ := hf
@@ -327,24 +371,24 @@ theorem insertSyl_ok {sh : Shared D L} (h : ShInv env G sh) {k : Nat}
   rw [List.append_assoc, List.getElem?_append_right (by omega), this, Nat.sub_self]
   rfl
 
-theorem newPhraseSimple_ok {sh : Shared D L} (h : ShInv env G sh) {k : Nat} (h0 : 0 < sh.com.cursor)
-    (hs : sh.com.inner.symbols[sh.com.cursor - 1]? = some (Sym.syl k)) : StepOK env G (newPhraseSimple sh) := by
+theorem newPhraseSimple_ok {sh : Shared D L} (h : ShInv env G w sh) {k : Nat} (h0 : 0 < sh.com.cursor)
+    (hs : sh.com.inner.symbols[sh.com.cursor - 1]? = some (Sym.syl k)) : StepOK env G w (newPhraseSimple sh) := by
   unfold newPhraseSimple
   dsimp only
   obtain ⟨p, hq, p1, p2, p3, p4, p5, p6⟩ := initSingleWord_ok sh.options.lookupStrategy sh.com.pushCursor.inner
     sh.com.pushCursor.cursor h0 h.ced.cur ⟨k, hs⟩
   rw [hq]
   refine stepOK_to (h.setComSame (ced_pushCursor h.ced) rfl) _ ⟨?_, fun _ => .inl ⟨p, rfl⟩⟩
-  show PhraseOK env _ p
+  show PhraseOK env w _ p
   refine ⟨p1, p3, by rw [p1]; exact p4, by rw [p1]; exact p5, ?_, p6⟩
-  intro c hc
+  intro hw c hc
   rw [p2]
   rw [p1] at hc
-  exact (h.word c hc).2
+  exact (h.word hw c hc).2
 
-theorem syllableAnswer_ok (hE : EnvOK env G) {sh : Shared D L} (h : ShInv env G sh) (beh : LayoutBeh) :
-    StepOK env G (syllableAnswer env sh beh) := by
-  have hsyl : ∀ l : L, ShInv env G { sh with syl := l } := fun l => h.congr rfl rfl rfl rfl rfl rfl
+theorem syllableAnswer_ok (hE : EnvOK env G) {sh : Shared D L} (h : ShInv env G w sh) (beh : LayoutBeh) :
+    StepOK env G w (syllableAnswer env sh beh) := by
+  have hsyl : ∀ l : L, ShInv env G w { sh with syl := l } := fun l => h.congr rfl rfl rfl rfl rfl rfl
   unfold syllableAnswer
   split
   · split
@@ -353,14 +397,14 @@ theorem syllableAnswer_ok (hE : EnvOK env G) {sh : Shared D L} (h : ShInv env G 
   · next s =>
     split
     · next hw =>
-      obtain ⟨c, hq, hi, _⟩ := insertSyl_ok h (word_both hE h hw)
+      obtain ⟨c, hq, hi, _⟩ := insertSyl_ok h (fun hw0 => word_both hE h hw0 hw)
       unfold withCom
       rw [hq]
       exact stepOK_spin hi _
     · spin_of h
   · split
     · next hw =>
-      obtain ⟨c, hq, hi, c0, c1⟩ := insertSyl_ok h (word_both hE h hw)
+      obtain ⟨c, hq, hi, c0, c1⟩ := insertSyl_ok h (fun hw0 => word_both hE h hw0 hw)
       unfold withCom
       rw [hq]
       dsimp only
@@ -372,9 +416,9 @@ theorem syllableAnswer_ok (hE : EnvOK env G) {sh : Shared D L} (h : ShInv env G 
   · spin_of h
 
 /-- **`EnteringSyllable::next`** -/
-theorem enteringSyllableNext_ok (hE : EnvOK env G) {sh : Shared D L} (h : ShInv env G sh) (ev : KeyEvent) :
-    StepOK env G (enteringSyllableNext env sh ev) := by
-  have hsyl : ∀ l : L, ShInv env G { sh with syl := l } := fun l => h.congr rfl rfl rfl rfl rfl rfl
+theorem enteringSyllableNext_ok (hE : EnvOK env G) {sh : Shared D L} (h : ShInv env G w sh) (ev : KeyEvent) :
+    StepOK env G w (enteringSyllableNext env sh ev) := by
+  have hsyl : ∀ l : L, ShInv env G w { sh with syl := l } := fun l => h.congr rfl rfl rfl rfl rfl rfl
   unfold enteringSyllableNext
   repeat' split
   all_goals first
@@ -387,13 +431,13 @@ theorem enteringSyllableNext_ok (hE : EnvOK env G) {sh : Shared D L} (h : ShInv 
   all_goals
     apply stepOK_to
     · refine ⟨h.good, ced_clear h.ced, ?_, h.coupled, h.perPage, h.symOK⟩
-      intro c hc; simp [CompEditor.clear, Composition.clear] at hc
+      intro _ c hc; simp [CompEditor.clear, Composition.clear] at hc
     · trivial
 
 /-! ## `Highlighting` -/
 
-theorem highlightingNext_ok (hE : EnvOK env G) (m : Nat) {sh : Shared D L} (h : ShInv env G sh) (ev : KeyEvent) :
-    OkAnd (fun x => ShInv env G x.1 ∧ ∀ s, x.2.2 = .toState s → StInv env x.1 s) (highlightingNext env m sh ev) := by
+theorem highlightingNext_ok (hE : EnvOK env G) (m : Nat) {sh : Shared D L} (h : ShInv env G w sh) (ev : KeyEvent) :
+    OkAnd (fun x => ShInv env G w x.1 ∧ ∀ s, x.2.2 = .toState s → StInv env w x.1 s) (highlightingNext env m sh ev) := by
   unfold highlightingNext
   dsimp only
   split
@@ -403,7 +447,7 @@ theorem highlightingNext_ok (hE : EnvOK env G) (m : Nat) {sh : Shared D L} (h : 
     · split
       · exact .ok ⟨h, fun s hs => by cases hs⟩
       · split
-        · have h1 : ShInv env G { sh with com := sh.com.moveCursor m } := h.setComSame (ced_moveCursor h.ced m) rfl
+        · have h1 : ShInv env G w { sh with com := sh.com.moveCursor m } := h.setComSame (ced_moveCursor h.ced m) rfl
           obtain ⟨⟨sh', b⟩, hq, hi, _⟩ := learnInRangeNotify_ok hE h1 (min m sh.com.cursor) (max m sh.com.cursor)
             (by omega)
           rw [hq]
